@@ -90,9 +90,10 @@ static void rand_hash(uint8_t *out, size_t out_len, uint8_t *in,
  * @param[in] digit			- the small integer.
  */
 static int rand_inc(uint8_t *data, size_t size, int digit) {
-	int carry = digit;
+	/* The reseed counter does not fit 16 bits. */
+	unsigned int carry = digit;
 	for (int i = size - 1; i >= 0; i--) {
-		int16_t s;
+		unsigned int s;
 		s = (data[i] + carry);
 		data[i] = s & 0xFF;
 		carry = s >> 8;
